@@ -80,6 +80,16 @@ theorem parse_call (cs : List ArgCall) (rest : List Tok) (h : wfCall cs rest = t
 example : wfCall [⟨.chr 42, 0, some [.ch 42]⟩, ⟨.pair 91 93, 0, none⟩, ⟨.tok, 1, some [.ch 97, .bg false, .ch 98, .eg false]⟩,
       ⟨.pair 40 41, 0, some [.ch 120, .ch 40, .ch 121, .ch 41]⟩, ⟨.tok, 1, some [.ch 122]⟩] [.ch 82] = true := by decide
 
+/-- non-vacuity: control symbols named like the delimiter (`\\>` inside `<…>`, `\\[` inside `[…]`, `\\}` inside braces) are
+    ordinary tokens of a conforming call: `\\foo<a\\>b>[x\\[y]{u\\}v}` followed by `R` -/
+example : wfCall [⟨.pair 60 62, 0, some [.ch 97, .cs [62] false, .ch 98]⟩, ⟨.pair 91 93, 0, some [.ch 120, .cs [91] false, .ch 121]⟩,
+      ⟨.tok, 0, some [.ch 117, .cs [125] false, .ch 118]⟩] [.ch 82] = true ∧
+    delimitAll [.pair 60 62, .pair 91 93, .tok]
+      (renderCall [⟨.pair 60 62, 0, some [.ch 97, .cs [62] false, .ch 98]⟩, ⟨.pair 91 93, 0, some [.ch 120, .cs [91] false, .ch 121]⟩,
+        ⟨.tok, 0, some [.ch 117, .cs [125] false, .ch 118]⟩] ++ [.ch 82]) =
+      ([some [.ch 97, .cs [62] false, .ch 98], some [.ch 120, .cs [91] false, .ch 121], some [.ch 117, .cs [125] false, .ch 118]], [.ch 82]) := by
+  decide
+
 /-! ## typing: the casts -/
 
 /-- **List-typed argument.** The written items (brace balanced, the delimiter only inside braces; any delimiter
